@@ -126,9 +126,12 @@ fn cmp_chars_to_str(s: &str, start_idx: usize, cmp_str: &str) -> bool {
 
 fn parse_duration(s: &str) -> Result<Duration, HifitimeError> {
     let mut decomposed = [0.0_f64; 7];
+    // Components written as whole numbers are kept on integers: beyond 2^53 ns a float product drops nanoseconds.
+    let mut decomposed_whole = [0_u64; 7];
     let mut prev_idx = 0;
     let mut seeking_number = true;
     let mut latest_value = 0.0;
+    let mut latest_whole: Option<u64> = None;
     let mut prev_char_was_space = false;
 
     for (idx, char) in s.char_indices() {
@@ -142,6 +145,7 @@ fn parse_duration(s: &str) -> Result<Duration, HifitimeError> {
                         });
                     }
 
+                    latest_whole = lexical_core::parse::<u64>(s[prev_idx..idx].as_bytes()).ok();
                     match lexical_core::parse(s[prev_idx..idx].as_bytes()) {
                         Ok(val) => latest_value = val,
                         Err(_) => {
@@ -164,7 +168,10 @@ fn parse_duration(s: &str) -> Result<Duration, HifitimeError> {
                 let mut found_unit = false;
                 for &(unit_str, pos) in UNITS {
                     if cmp_chars_to_str(s, start_idx, unit_str) {
-                        decomposed[pos] = latest_value;
+                        match latest_whole {
+                            Some(whole) => (decomposed_whole[pos], decomposed[pos]) = (whole, 0.0),
+                            None => (decomposed_whole[pos], decomposed[pos]) = (0, latest_value),
+                        }
                         seeking_number = true;
                         prev_idx = end_idx;
                         found_unit = true;
@@ -194,7 +201,10 @@ fn parse_duration(s: &str) -> Result<Duration, HifitimeError> {
         let mut found_unit = false;
         for &(unit_str, pos) in UNITS {
             if cmp_chars_to_str(s, start_idx, unit_str) {
-                decomposed[pos] = latest_value;
+                match latest_whole {
+                    Some(whole) => (decomposed_whole[pos], decomposed[pos]) = (whole, 0.0),
+                    None => (decomposed_whole[pos], decomposed[pos]) = (0, latest_value),
+                }
                 found_unit = true;
                 break;
             }
@@ -213,7 +223,16 @@ fn parse_duration(s: &str) -> Result<Duration, HifitimeError> {
         });
     }
 
-    Ok(Duration::compose_f64(
+    Ok(Duration::compose(
+        1,
+        decomposed_whole[0],
+        decomposed_whole[1],
+        decomposed_whole[2],
+        decomposed_whole[3],
+        decomposed_whole[4],
+        decomposed_whole[5],
+        decomposed_whole[6],
+    ) + Duration::compose_f64(
         1,
         decomposed[0],
         decomposed[1],
